@@ -78,6 +78,8 @@ def refine(p, kcase):
     F.saturate({"k", "d"})
     if F.inconsistent():
         return None
+    if F.prove_eq(D):
+        lenv["d"] = ZERO
     return F, lenv
 
 
